@@ -163,9 +163,9 @@ Lemma view_invert_inv v v' : view_invert v = Ok v' ->
 Proof. intros H. apply mk_view_inv in H. tauto. Qed.
 
 (* ---- concat ---- *)
-Lemma concat_loop_spec tag0 p n acc vs s :
+Lemma concat_loop_spec tag0 n acc vs s :
   length acc = n ->
-  Forall (fun v => v_parent v = p /\ length (v_sel v) = n) vs ->
+  Forall (fun v => v_tag v = tag0 -> length (v_sel v) = n) vs ->
   concat_loop tag0 (Some acc) vs = Ok (Some s) ->
   length s = n /\ Forall (fun v => v_tag v = tag0) vs /\
   forall i, nth i s false = nth i acc false || existsb (fun v => nth i (v_sel v) false) vs.
@@ -173,7 +173,7 @@ Proof.
   revert acc; induction vs as [|v r IH]; intros acc HL HF; cbn [concat_loop existsb].
   - intros [= <-]. repeat split; [exact HL|constructor|]. intros i. now rewrite orb_false_r.
   - destruct (Z.eqb_spec (v_tag v) tag0) as [E|E]; cbn [negb]; [|discriminate].
-    inversion HF as [|? ? [Hp Hv] HF']; subst.
+    inversion HF as [|? ? Hv HF']; subst. specialize (Hv eq_refl).
     intros H. apply IH in H; [|now rewrite bor_vec_length|exact HF'].
     destruct H as (H1 & H2 & H3). repeat split; [exact H1|now constructor|].
     intros i. rewrite H3, nth_bor_vec by congruence. now rewrite orb_assoc.
@@ -183,24 +183,36 @@ Lemma concat_loop_head v0 vs :
   concat_loop (v_tag v0) None (v0 :: vs) = concat_loop (v_tag v0) (Some (v_sel v0)) vs.
 Proof. cbn [concat_loop]. now rewrite Z.eqb_refl. Qed.
 
+(* views carrying the first one's tag have the first one's length: all that union needs *)
+Lemma concat_union_gen v0 vs c :
+  Forall (fun v => v_tag v = v_tag v0 -> length (v_sel v) = length (v_sel v0)) vs ->
+  view_concat (v0 :: vs) = Ok c ->
+  v_tag c = v_tag v0 /\ v_parent c = v_parent v0 /\ length (v_sel c) = length (v_sel v0) /\
+  Forall (fun v => v_tag v = v_tag v0) vs /\
+  forall i, nth i (v_sel c) false = existsb (fun v => nth i (v_sel v) false) (v0 :: vs).
+Proof.
+  intros HF. destruct vs as [|v1 r]; cbn [view_concat].
+  - intros [= <-]. repeat split; [constructor|]. intros i. cbn [existsb]. now rewrite orb_false_r.
+  - rewrite concat_loop_head.
+    destruct (concat_loop (v_tag v0) (Some (v_sel v0)) (v1 :: r)) as [[s|]|] eqn:E; cbn [res_bind]; try discriminate.
+    apply (concat_loop_spec _ _ _ _ _ eq_refl HF) in E. destruct E as (H1 & H2 & H3).
+    intros H. apply mk_view_inv in H. destruct H as (_ & _ & ->). cbn [v_tag v_parent v_sel].
+    repeat split; [exact H1|exact H2|]. intros i. rewrite H3. reflexivity.
+Qed.
+
 Lemma concat_union p vs c :
   Forall (fun v => v_parent v = p /\ view_ok v) vs -> view_concat vs = Ok c ->
   v_parent c = p /\ view_ok c /\ Forall (fun v => v_tag v = v_tag c) vs /\
   forall i, nth i (v_sel c) false = existsb (fun v => nth i (v_sel v) false) vs.
 Proof.
-  intros HF. destruct vs as [|v0 [|v1 r]]; cbn [view_concat].
-  - discriminate.
-  - intros [= <-]. inversion HF as [|? ? [Hp Hv] _]; subst. repeat split; auto.
-    intros i. cbn [existsb]. now rewrite orb_false_r.
-  - rewrite concat_loop_head.
-    assert (HF' : Forall (fun v => v_parent v = p /\ length (v_sel v) = screen_size p) (v0 :: v1 :: r)).
-    { eapply Forall_impl; [|exact HF]. cbn. intros v [Hp Hv]. unfold view_ok in Hv. rewrite Hp in Hv. auto. }
-    inversion HF' as [|? ? [Hp0 Hv0] HF'']; subst.
-    destruct (concat_loop (v_tag v0) (Some (v_sel v0)) (v1 :: r)) as [[s|]|] eqn:E; cbn [res_bind]; try discriminate.
-    apply (concat_loop_spec _ _ _ _ _ _ Hv0 HF'') in E. destruct E as (H1 & H2 & H3).
-    intros H. apply mk_view_inv in H. destruct H as (_ & _ & ->). cbn [v_tag v_parent v_sel].
-    repeat split; [unfold view_ok; cbn [v_sel v_parent]; exact H1|now constructor|].
-    intros i. rewrite H3. reflexivity.
+  intros HF. destruct vs as [|v0 r]; [discriminate|].
+  inversion HF as [|? ? [Hp0 Hv0] HF']; subst. intros H.
+  apply concat_union_gen in H.
+  - destruct H as (Ht & Hp & HL & HT & Hi). repeat split; [exact Hp| |constructor|exact Hi].
+    + unfold view_ok in *. congruence.
+    + now symmetry.
+    + eapply Forall_impl; [|exact HT]. cbn. intros v Hv. congruence.
+  - eapply Forall_impl; [|exact HF']. cbn. intros v [Hp Hv] _. unfold view_ok in *. congruence.
 Qed.
 
 Lemma concat_empty : view_concat [] = Err 24%Z.
